@@ -2852,10 +2852,16 @@ MANIFEST = {
             "discretization model; proved for every script: the valid flag is sound, isPathValid is complete for the chain it accepts, "
             "the reported path is real (every edge answered valid by checkMotion or a re-added lastValid state; valid start to valid goal "
             "sample), and the Discretization invariants hold for BOTH trees across removeMotion of whole subtrees and re-adds; that "
-            "removeMotion removes exactly the descendants and frees each once is sampled (oracle on every dump), only its frame part is proved. "
+            "every reachable arena is a forest in its children lists and removeMotion removes exactly the motion and its descendants, each "
+            "freed once and none twice (lbkpiece_forest, lbkpiece_remove_subtree, lbkpiece_remove_call_site). "
             "Plain GridN with the split protocol its API documents (createCell updates the neighbours at once; remove on a never-added "
             "cell undoes it) is modelled separately (GridB overrides these functions): gridN_counts_exact for every history incl. "
-            "create->remove->destroy without add, lock-step of the real GridN<int>, brute-force neighbour-count oracle.",
+            "create->remove->destroy without add, lock-step of the real GridN<int>, brute-force neighbour-count oracle; the same engine "
+            "drives the Grid base observers (has/getCell/neighbors/getContent/getCoordinates/getCells/components/status/clear), dimensions "
+            "1-5 and the setters AFTER first use (setInteriorCellNeighborLimit, setBounds, setDimension on the emptied grid) as coded. "
+            "control::KPIECE1's own copy of the discretization (coverage by motion->steps, 1e-3 score offset, border fraction without "
+            "range check) is an instance of the same model (add generalised by weight/offset; all Discretization theorems cover it) and "
+            "the real control::KPIECE1 members are driven in lock-step with the bookkeeping oracle.",
     "note": "Trusted: Lean kernel, the three standard axioms, the hand-written model outside the scripts the correspondence explored, "
             "the harness, the reused C11 heap model. Histories follow the user protocol of KPIECE's Discretization; tops-are-minima "
             "is checked by the oracle and the correspondence (the heap-order theorems belong to C11).",
